@@ -666,6 +666,7 @@ pub async fn one_execution(seed: u64, big_ok: bool, stats_out: &mut BTreeMap<Str
 }
 
 fn run(ctx: &mut Ctx) {
+    std::panic::set_hook(Box::new(|_| {}));
     let rt = tokio::runtime::Builder::new_multi_thread().worker_threads(3).enable_all().build().unwrap();
     klukai_types::verif::set_record(true);
     let target = ctx.tier.pick(400u64, 100_000u64);
